@@ -405,6 +405,33 @@ def value_at(model, f: FunctionInfo, name: str, node, norm=None, _depth=0):
     return val
 
 
+def last_def_at(model, f: FunctionInfo, name: str, node, norm=None):
+    """The last plain assignment `name = expr` that must have executed before `node`, provided no other store to
+    `name` can execute between it and `node`.  Occurrences of `name` inside the returned term denote the OLDER value."""
+    hit = flw.find_stmt_of(f.node, node)
+    if hit is None:
+        return None
+    stmt, facts = hit
+    norm = norm or Normalizer(model, f, inline=False)
+    executed = [x[1] for x in facts if x[0] == "stmt"]
+    stores = _stores_to(f.node, name)
+    last = None
+    for s_ in executed:
+        if s_ in stores and isinstance(s_, ast.Assign) and len(s_.targets) == 1 and isinstance(s_.targets[0], ast.Name):
+            last = s_
+        elif s_ in stores:
+            last = None
+    if last is None:
+        return None
+    ex_ids = {id(x) for x in executed}
+    for s_ in stores:
+        if id(s_) in ex_ids or s_ is stmt:
+            continue
+        if last.lineno < getattr(s_, "lineno", 0) < getattr(stmt, "lineno", 10**9) and not _in_terminated_branch(f.node, s_):
+            return None
+    return norm(last.value)
+
+
 def _subst(t, name, val):
     if val is None:
         return t
@@ -990,3 +1017,42 @@ def _kind_int_handled(model, f, pname, seen):
             return (True, f"no sequence operation while it may be an int; forwarded to {', '.join(sorted({d[1].name for d in deleg}))}, which handle int", None)
         return (None, "forwarded to callees with unknown handling", None)
     return (True, "no sequence operation is applied while the parameter may still be a Python int", None)
+
+
+# ---------------------------------------------------------------------------------------------
+def r_dtype_buffer(ctx, f: FunctionInfo, param: str, rule="R-DTYPE"):
+    """A result buffer whose dtype is copied from ONE input element (x[0].dtype / a local built from it) must not
+    receive the data of the other elements: numpy silently casts on item assignment (complex -> real drops the
+    imaginary part with a warning, float -> int truncates silently)."""
+    model = ctx.model
+    og = origins(f)
+    N = Normalizer(model, f, inline=True)
+    bufs = {}
+    for n in walk_no_nested(f.node):
+        if isinstance(n, ast.Assign) and len(n.targets) == 1 and isinstance(n.targets[0], ast.Name) and isinstance(n.value, ast.Call):
+            k = model.resolve_call(f, n.value).key
+            if k in ("numpy.zeros", "numpy.empty", "numpy.ones", "numpy.full"):
+                dt = next((kw.value for kw in n.value.keywords if kw.arg == "dtype"), None)
+                if dt is None:
+                    continue
+                t = N(dt)
+                one_elem = any(isinstance(s_, tuple) and s_ and s_[0] == "attr" and s_[2] == "dtype" and mentions_name(s_[1], param) and
+                               any(isinstance(x, tuple) and x and x[0] == "sub" and x[1] == ("n", param) and x[2][0] == "c" for x in subterms(s_[1]))
+                               for s_ in subterms(t))
+                if one_elem:
+                    bufs[n.targets[0].id] = n
+    key = f"no result buffer takes its dtype from a single element of `{param}`"
+    bad = None
+    for n in walk_no_nested(f.node):
+        if isinstance(n, ast.Assign) and isinstance(n.targets[0], ast.Subscript):
+            b = n.targets[0].value
+            while isinstance(b, ast.Subscript):
+                b = b.value
+            if isinstance(b, ast.Name) and b.id in bufs and og.derives_from(n.value, param):
+                bad = (n, bufs[b.id])
+    if bad:
+        ctx.ob(rule, f, key, False,
+               f"`{unparse(bad[1])[:70]}` fixes the buffer's dtype from one element of `{param}` and `{unparse(bad[0])[:50]}` stores the other elements "
+               "into it: mixed real/complex or int/float families are silently cast down", bad[0])
+    else:
+        ctx.ob(rule, f, key, True, "no such buffer")
